@@ -14,7 +14,7 @@ Theorem C07_epilogue : forall maxc r1 disc code w1 x w',
   x = inr EK_Reset \/ (exists rp, x = inl rp) ->
   exists p2 r3 w2 ast ps,
     set_stream (rsp r1) None = SetOk p2 /\
-    record_boundary maxc (mkR p2 (rwriteable r1) (rlock r1)) w1 = Ok (None, r3) w2 /\
+    record_boundary maxc (mkR p2 (rwriteable r1) (rlock r1) (raborted r1)) w1 = Ok (None, r3) w2 /\
     wlog w2 = wlog w1 /\
     exit_to_end disc code = Some (ast, ps) /\
     (let id := r_id (sreq (rsp r3)) in
@@ -32,7 +32,7 @@ Proof. exact close_tail_log_shape. Qed.
 Theorem C07_reuse : forall maxc r1 disc code w1 x w' p2 r3 w2 ep,
   close_tail maxc r1 disc code w1 = Ok x w' ->
   set_stream (rsp r1) None = SetOk p2 ->
-  record_boundary maxc (mkR p2 (rwriteable r1) (rlock r1)) w1 = Ok (None, r3) w2 ->
+  record_boundary maxc (mkR p2 (rwriteable r1) (rlock r1) (raborted r1)) w1 = Ok (None, r3) w2 ->
   epilogue (r_id (sreq (rsp r3))) disc code (if rwriteable r1 then ROLE_OUTPUT_STREAMS else []) = Some ep ->
   let total := output_buffer (rsp r3) ++ ep in
   let keep := N.land (r_flags (sreq (rsp r3))) FLAG_KeepConn = FLAG_KeepConn in
@@ -40,7 +40,7 @@ Theorem C07_reuse : forall maxc r1 disc code w1 x w' p2 r3 w2 ep,
   | inl rp => wlog w' = wlog w1 ++ total /\ keep /\ into_request_parser (close_p4 r3) = ConvOk rp
   | inr k =>
       (wlog w' = wlog w1 ++ total /\ k = EK_Reset /\ ~ keep) \/
-      ((k = EK_WriteZero \/ k = EK_Transport) /\ ~ no_fault (wscript w2) /\
+      ((k = EK_WriteZero \/ k = EK_Transport \/ k = EK_Aborted) /\ ~ no_fault (wscript w2) /\
        exists b1 b2, total = b1 ++ b2 /\ b2 <> [] /\ wlog w' = wlog w1 ++ b1)
   end.
 Proof. exact close_reuse_iff. Qed.
